@@ -46,6 +46,7 @@ struct Th {
     bool timed;            // blocked in a wait with a timeout / in a sleep: simulated time may pass
     bool timed_out;
     bool in_jump;          // woken by the most recent jump of simulated time
+    bool detached;         // std::thread::detach(): the controller waits for it at the end of the run
 };
 
 struct Xo {
@@ -111,6 +112,9 @@ Event g_ev[EV_CAP];
 int64_t g_cells[RT_NCELLS];
 uint64_t g_probes[RT_NPROBES];
 thread_local int me = -1;
+// a primitive called by a thread the scheduler does not know (e.g. the destructor of a moved-from thread
+// argument, run by the real thread after its simulated end) passes straight through to the real object
+#define on() (g.active && me >= 0)
 
 inline long futex(int* addr, int op, int val) {
     return syscall(SYS_futex, addr, op, val, nullptr, nullptr, 0);
@@ -394,7 +398,11 @@ void rt_run_begin(const SimCfg& cfg, uint64_t seed, const uint8_t* replay, size_
     g.active = true;
 }
 
+void rt_thread_detach(int tid) { if (g.active && tid > 0 && tid < g.nth) g.th[tid].detached = true; }
 bool rt_run_end(Stats* out) {
+    // detached threads are waited for (as a process would at exit, had it cared)
+    for (int t = 1; t < g.nth; ++t)
+        if (g.th[t].detached && g.th[t].state != S_EXITED) rt_thread_join(t);
     bool clean = true;
     for (int t = 1; t < g.nth; ++t)
         if (g.th[t].state != S_EXITED) clean = false;
@@ -409,23 +417,23 @@ const uint8_t* rt_decisions(size_t* n) { *n = g.ndec < DEC_CAP ? g.ndec : DEC_CA
 // ---- mutex ------------------------------------------------------------------
 void rt_mutex_init(MutexSt* m) { m->owner = -1; m->ord = new_ord(); }
 void rt_mutex_lock(MutexSt* m) {
-    if (!g.active) return;
+    if (!on()) return;
     reset_spin(g.th[me]);
     acquire(m);
 }
-void rt_mutex_locked(MutexSt* m) { if (g.active) after(OP_LOCK, m->ord); }
+void rt_mutex_locked(MutexSt* m) { if (on()) after(OP_LOCK, m->ord); }
 bool rt_mutex_trylock(MutexSt* m) {
-    if (!g.active) return true;
+    if (!on()) return true;
     reset_spin(g.th[me]);
     if (m->owner != -1) return false;
     m->owner = me;
     return true;
 }
 void rt_mutex_tried(MutexSt* m, bool ok) {
-    if (g.active) after(ok ? OP_TRYLOCK_OK : OP_TRYLOCK_FAIL, m->ord);
+    if (on()) after(ok ? OP_TRYLOCK_OK : OP_TRYLOCK_FAIL, m->ord);
 }
 void rt_mutex_unlock(MutexSt* m) {
-    if (!g.active) return;
+    if (!on()) return;
     reset_spin(g.th[me]);
     if (m->owner != me) rt_fatal("machinery", "unlock of a mutex not owned");
     m->owner = -1;
@@ -436,7 +444,7 @@ void rt_mutex_unlock(MutexSt* m) {
 // ---- condition variable -----------------------------------------------------
 void rt_cv_init(CvSt* c) { c->ord = new_ord(); c->pad = 0; }
 void rt_cv_wait(CvSt* c, MutexSt* m) {
-    if (!g.active) rt_fatal("machinery", "cv wait outside a simulated run");
+    if (!on()) rt_fatal("machinery", "cv wait outside a simulated run");
     Th& t = g.th[me];
     reset_spin(t);
     if (m->owner != me) rt_fatal("machinery", "cv wait without owning the mutex");
@@ -450,7 +458,7 @@ void rt_cv_wait(CvSt* c, MutexSt* m) {
     mix(OP_CVWOKEN, c->ord);
     acquire(m);
 }
-void rt_cv_waited(CvSt* c) { if (g.active) after(OP_LOCK, c->ord); }
+void rt_cv_waited(CvSt* c) { if (on()) after(OP_LOCK, c->ord); }
 // wait with a timeout: like rt_cv_wait, but the thread may also be resumed by the passage of
 // simulated time (when nothing else can run, or as a seeded early timeout).  Returns true if it timed out.
 bool rt_cv_wait_timed(CvSt* c, MutexSt* m) {
@@ -462,7 +470,7 @@ bool rt_cv_wait_timed(CvSt* c, MutexSt* m) {
     return r;
 }
 void rt_sleep() {
-    if (!g.active) return;
+    if (!on()) return;
     Th& t = g.th[me];
     reset_spin(t);
     // a sleep ends when simulated time has passed: either at once (seeded) or when nobody else can run
@@ -471,7 +479,7 @@ void rt_sleep() {
     t.timed = false; t.timed_out = false;
 }
 void rt_cv_notify(CvSt* c, bool all) {
-    if (!g.active) return;
+    if (!on()) return;
     reset_spin(g.th[me]);
     g.progress = true;
     int w[MAXT];
@@ -494,7 +502,7 @@ void rt_cv_notify(CvSt* c, bool all) {
 // ---- atomics ----------------------------------------------------------------
 void rt_atomic_init(AtomicSt* a) { a->ord = new_ord(); a->pad = 0; }   // pad: number of writes so far
 void rt_atomic_loaded(AtomicSt* a, uint64_t v) {
-    if (!g.active) return;
+    if (!on()) return;
     Th& t = g.th[me];
     if (t.last_load == a && t.last_val == v) t.same_loads++;
     else { t.last_load = a; t.last_val = v; t.same_loads = 1; }
@@ -509,7 +517,7 @@ void rt_atomic_loaded(AtomicSt* a, uint64_t v) {
     schedule();
 }
 void rt_atomic_written(AtomicSt* a, bool rmw) {
-    if (!g.active) return;
+    if (!on()) return;
     g.progress = true;
     reset_spin(g.th[me]);
     a->pad++;
@@ -520,7 +528,7 @@ void rt_atomic_written(AtomicSt* a, bool rmw) {
 
 // ---- threads ----------------------------------------------------------------
 int rt_thread_create() {
-    if (!g.active) rt_fatal("machinery", "thread created outside a simulated run");
+    if (!on()) rt_fatal("machinery", "thread created outside a simulated run");
     if (g.nth >= MAXT) rt_fatal("machinery", "too many simulated threads");
     reset_spin(g.th[me]);
     int tid = g.nth++;
@@ -551,7 +559,7 @@ void rt_thread_end(int tid) {
     me = -1;
 }
 void rt_thread_join(int tid) {
-    if (!g.active) rt_fatal("machinery", "join outside a simulated run");
+    if (!on()) rt_fatal("machinery", "join outside a simulated run");
     Th& t = g.th[me];
     reset_spin(t);
     while (g.th[tid].state != S_EXITED) {
@@ -562,7 +570,7 @@ void rt_thread_join(int tid) {
 void rt_thread_joined(int tid) { after(OP_TJOIN, uint32_t(tid)); }
 
 void rt_yield() {
-    if (!g.active) return;
+    if (!on()) return;
     Th& t = g.th[me];
     g.st.p_yield++;
     if (g.cfg.strategy == STRAT_PCT) t.prio = g.pct_low--;
@@ -575,9 +583,9 @@ void rt_yield() {
     }
     after(OP_YIELD, 0);
 }
-void rt_point() { if (g.active) { reset_spin(g.th[me]); after(OP_POINT, 0); } }
+void rt_point() { if (on()) { reset_spin(g.th[me]); after(OP_POINT, 0); } }
 void rt_await_quiescence() {
-    if (!g.active) return;
+    if (!on()) return;
     reset_spin(g.th[me]);
     g.st.p_quiesce++;
     g.th[me].state = S_QUIESCE;
@@ -601,12 +609,12 @@ bool rt_rng_degenerate() { return g.active && g.cfg.rng_degenerate != 0; }
 
 // ---- environment decisions ----------------------------------------------------
 uint32_t rt_choice(uint32_t n, uint32_t permille) {
-    if (!g.active || n <= 1) return 0;
+    if (!on() || n <= 1) return 0;
     uint32_t gen = 0;
     if (!g.replaying && g.rf.permille(permille)) gen = 1 + g.rf.below(n - 1);
     return take(n, gen);
 }
-void rt_note(uint32_t op, uint32_t v) { if (g.active) { g.heartbeat++; mix(op, v); } }
+void rt_note(uint32_t op, uint32_t v) { if (on()) { g.heartbeat++; mix(op, v); } }
 void rt_count_alloc(bool recycled, bool quarantined) {
     if (recycled) g.st.f_alloc_recycle++;
     if (quarantined) g.st.f_alloc_quarantined++;
